@@ -1,4 +1,5 @@
 import EmsModel.Lemmas.DepthIdem
+import EmsModel.Lemmas.DepthSignOnly
 /-!
 # C13 — depth normalisation reorients coordinates and data together, idempotently
 
@@ -530,6 +531,174 @@ theorem normalize_rejects (ds : Dataset) (coords : List String) (pd dts : Opt) (
         | some r => exact ih hm r.1 (w ++ r.2)
   exact hloop coords hc ds []
 
+/-! ### Coordinates with any number of levels, `deep_to_shallow` left unset
+
+A depth coordinate with **one level** (a surface-only or bottom-only extract that kept its
+depth axis, a single sediment layer) has a sign convention but no ordering.  The theorems
+above ask for ≥ 2 strictly monotonic levels because the ordering test reads the first two
+values; with `deep_to_shallow = None` that test is never reached, and the sign clause, the
+bounds clause, "data stay attached", idempotence and "unset options leave the aspect
+untouched" hold under `ValidSign` alone: one-dimensional coordinates on pairwise different
+dimensions, unique names — *no hypothesis on the number of levels or on the values*. -/
+
+/-- **The sign-only call succeeds** whatever the number of levels (1, 0, many) and the values. -/
+theorem sign_only_succeeds (ds : Dataset) (coords : List String) (pd : Opt) (h : ValidSign ds coords) :
+    ∃ out, normalize ds coords pd none = some (out, coords.flatMap (warnFor ds))
+      ∧ out.sizes = ds.sizes
+      ∧ out.vars.map (·.name) = ds.vars.map (·.name)
+      ∧ out.vars.map (·.dims) = ds.vars.map (·.dims) :=
+  ⟨normOut ds coords pd none, normalize_signOnly ds coords pd h, rfl,
+    names_normOut ds coords pd none, dims_normOut ds coords pd none⟩
+
+theorem out_eq_signOnly {ds : Dataset} {coords : List String} {pd : Opt} {out : Dataset} {w : List String}
+    (h : ValidSign ds coords) (hn : normalize ds coords pd none = some (out, w)) :
+    out = normOut ds coords pd none := by
+  rw [normalize_signOnly ds coords pd h] at hn
+  simp only [Option.some.injEq, Prod.mk.injEq] at hn
+  exact hn.1.symm
+
+/-- **Requested sign convention, any number of levels.** After `positive_down = b`
+(`deep_to_shallow` unset) every coordinate — also one with a single level — carries the
+requested attribute, is read with that convention, its values are negated exactly when its
+convention differed from the requested one (so attribute and values agree: the physical depth
+of every level is what it was, in place), and nothing else about the variable changes. -/
+theorem sign_only_sign (ds : Dataset) (coords : List String) (b : Bool) (out : Dataset) (w : List String)
+    (h : ValidSign ds coords) (hn : normalize ds coords (some b) none = some (out, w))
+    (c : String) (hc : c ∈ coords) (cv : Var) (hf : ds.find c = some cv) (hself : cv.bounds ≠ some c) :
+    ∃ cv', out.find c = some cv' ∧ cv'.positive = some (if b then "down" else "up") ∧ signDown cv' = b
+      ∧ cv'.data = (if signDown cv = b then cv.data else cv.data.map vneg)
+      ∧ phys cv' = phys cv
+      ∧ cv'.dims = cv.dims ∧ cv'.bounds = cv.bounds ∧ cv'.isCoord = cv.isCoord ∧ cv'.extra = cv.extra := by
+  obtain ⟨cv', hfind, ha⟩ := coord_after_signOnly ds coords (some b) h c hc cv hf hself
+  refine ⟨cv', by rw [out_eq_signOnly h hn]; exact hfind, ha.positive, ?_, ?_, ?_, ha.dims, ha.bounds,
+    ha.isCoord, ha.extra⟩
+  · rw [ha.sign]; simp only [wantFlip]
+    cases signDown cv <;> cases b <;> rfl
+  · rw [ha.data]
+    simp only [wantRev, revIf, wantFlip, negIf]
+    cases signDown cv <;> cases b <;> simp
+  · rw [ha.phys]; rfl
+
+/-- **`positive_down = None`, any number of levels**: with both options unset the dataset is
+returned as it is. -/
+theorem sign_only_none_identity (ds : Dataset) (coords : List String) (h : ValidSign ds coords) :
+    normalize ds coords none none = some (ds, coords.flatMap (warnFor ds)) := by
+  rw [normalize_signOnly ds coords none h]
+  congr 2
+  apply mapVars_id
+  intro v _
+  apply applyPlans_noop
+  intro p hp
+  obtain ⟨c, hc, rfl⟩ := List.mem_map.mp hp
+  obtain ⟨cv, d, hg⟩ := h.oneD c hc
+  have e : planFor ds none none c = planOf cv d none none := by simp [planFor, hg.found, hg.dims]
+  rw [e]
+  have e1 : stepPos (planOf cv d none none) v = v := by
+    unfold stepPos; split <;> rfl
+  have e2 : stepNeg (planOf cv d none none) v = v := by simp [stepNeg, planOf, wantFlip]
+  have e3 : stepBnd (planOf cv d none none) v = v := by simp [stepBnd, planOf, wantFlip]
+  have e4 : stepRev ds.sz (planOf cv d none none) v = v := by simp [stepRev, planOf, wantRev]
+  simp [applyPlan, e1, e2, e3, e4]
+
+/-- **Data are not moved by a sign-only call, any number of levels**: every plain variable
+(not a depth coordinate, not the bounds variable of one) is returned as it is — whatever its
+dimensions, so every value is still attached to the same level, whose physical depth
+(`sign_only_sign`) is unchanged. -/
+theorem sign_only_data_untouched (ds : Dataset) (coords : List String) (pd : Opt) (out : Dataset) (w : List String)
+    (h : ValidSign ds coords) (hn : normalize ds coords pd none = some (out, w))
+    (n : String) (u : Var) (hu : ds.find n = some u) (hplain : PlainVar ds coords n) :
+    out.find n = some u := by
+  rw [out_eq_signOnly h hn, find_normOut, hu, Option.map_some]
+  congr 1
+  have hname : u.name = n := find_name _ _ _ hu
+  apply applyPlans_noop
+  intro p hp
+  obtain ⟨c, hc, rfl⟩ := List.mem_map.mp hp
+  obtain ⟨cv, d, hg⟩ := h.oneD c hc
+  have e : planFor ds pd none c = planOf cv d pd none := by simp [planFor, hg.found, hg.dims]
+  rw [e]
+  apply applyPlan_signOnly_plain
+  · rw [hname, find_name _ _ _ hg.found]
+    exact fun e => hplain.1 (e ▸ hc)
+  · rw [hname]; exact hplain.2 c hc cv hg.found
+
+/-- **Bounds follow their coordinate, any number of levels**: the bounds variable named by
+coordinate `c` (not itself a depth coordinate, not named by another one) is negated exactly
+when the coordinate is, and is otherwise returned as it is. -/
+theorem sign_only_bounds (ds : Dataset) (coords : List String) (pd : Opt) (out : Dataset) (w : List String)
+    (h : ValidSign ds coords) (hn : normalize ds coords pd none = some (out, w))
+    (c : String) (hc : c ∈ coords) (cv : Var) (hf : ds.find c = some cv)
+    (bn : String) (bv : Var) (hb : cv.bounds = some bn) (hbf : ds.find bn = some bv) (hbc : bn ∉ coords)
+    (hother : ∀ c2 ∈ coords, c2 ≠ c → ∀ cv2, ds.find c2 = some cv2 → cv2.bounds ≠ some bn) :
+    out.find bn = some (if wantFlip pd (signDown cv) then negVar bv else bv) := by
+  rw [out_eq_signOnly h hn, find_normOut, hbf, Option.map_some]
+  congr 1
+  have hbn : bv.name = bn := find_name _ _ _ hbf
+  have hcn : cv.name = c := find_name _ _ _ hf
+  obtain ⟨cv0, d, hg⟩ := h.oneD c hc
+  have hcv : cv0 = cv := Option.some.inj (hg.found.symm.trans hf)
+  subst hcv
+  have hplan : planFor ds pd none c = planOf cv0 d pd none := by simp [planFor, hg.found, hg.dims]
+  -- the plans of the other coordinates leave a variable called `bn` alone
+  have hnoop : ∀ c2 ∈ coords, c2 ≠ c → ∀ v : Var, v.name = bn → applyPlan ds.sz (planFor ds pd none c2) v = v := by
+    intro c2 hc2 hne v hv
+    obtain ⟨cv2, d2, hg2⟩ := h.oneD c2 hc2
+    have e : planFor ds pd none c2 = planOf cv2 d2 pd none := by simp [planFor, hg2.found, hg2.dims]
+    rw [e]
+    apply applyPlan_signOnly_plain
+    · rw [hv, find_name _ _ _ hg2.found]
+      exact fun e => hbc (e ▸ hc2)
+    · rw [hv]; exact hother c2 hc2 hne cv2 hg2.found
+  obtain ⟨l1, l2, rfl⟩ := List.append_of_mem hc
+  have hpw := h.indep
+  rw [List.pairwise_append] at hpw
+  obtain ⟨_, hpw2, hcross⟩ := hpw
+  rw [List.pairwise_cons] at hpw2
+  rw [List.map_append, List.map_cons, applyPlans_append]
+  rw [applyPlans_noop ds.sz (l1.map (planFor ds pd none)) bv (by
+    intro p hp
+    obtain ⟨c2, hc2, rfl⟩ := List.mem_map.mp hp
+    exact hnoop c2 (List.mem_append_left _ hc2) (hcross c2 hc2 c (by simp)).1 bv hbn)]
+  show applyPlans ds.sz (l2.map (planFor ds pd none)) (applyPlan ds.sz (planFor ds pd none c) bv) = _
+  -- the plan of `c` itself
+  have hne : bv.name ≠ cv0.name := by rw [hbn, hcn]; exact fun e => hbc (e ▸ hc)
+  have hown : applyPlan ds.sz (planFor ds pd none c) bv
+      = (if wantFlip pd (signDown cv0) then negVar bv else bv) := by
+    rw [hplan]
+    have e1 : stepPos (planOf cv0 d pd none) bv = bv := by simp [stepPos, planOf, hne]
+    have e2 : stepNeg (planOf cv0 d pd none) bv = bv := by simp [stepNeg, planOf, hne]
+    have e3 : stepBnd (planOf cv0 d pd none) bv = (if wantFlip pd (signDown cv0) then negVar bv else bv) := by
+      simp [stepBnd, planOf, hb, hbn]
+    simp only [applyPlan, e1, e2, e3, stepRev, planOf_rev_none, Bool.false_eq_true, if_false]
+  rw [hown]
+  apply applyPlans_noop
+  intro p hp
+  obtain ⟨c2, hc2, rfl⟩ := List.mem_map.mp hp
+  apply hnoop c2 (List.mem_append_right _ (List.mem_cons_of_mem _ hc2)) (fun e => (hpw2.1 c2 hc2).1 e.symm)
+  split <;> simp [negVar, hbn]
+
+/-- **Idempotence of the sign-only call, any number of levels.** -/
+theorem sign_only_idempotent (ds : Dataset) (coords : List String) (pd : Opt) (out : Dataset) (w : List String)
+    (h : ValidSign ds coords) (hself : ∀ c ∈ coords, ∀ cv, ds.find c = some cv → cv.bounds ≠ some c)
+    (hn : normalize ds coords pd none = some (out, w)) :
+    ∃ w', normalize out coords pd none = some (out, w') := by
+  have hout := out_eq_signOnly h hn
+  have hv := validSign_after ds coords pd none h
+  rw [hout, normalize_signOnly _ coords pd hv]
+  refine ⟨coords.flatMap (warnFor (normOut ds coords pd none)), ?_⟩
+  congr 2
+  show (normOut ds coords pd none).mapVars _ = _
+  apply mapVars_id
+  intro v hv'
+  apply applyPlans_noop
+  intro p hp
+  obtain ⟨c, hc, rfl⟩ := List.mem_map.mp hp
+  exact plan_after_noop_signOnly ds coords pd h hself c hc v hv'
+
+/-- the hypotheses of the general theorems imply those of the sign-only ones -/
+theorem valid_validSign (ds : Dataset) (coords : List String) (h : Valid ds coords) : ValidSign ds coords :=
+  h.validSign
+
 /-! ### Non-vacuity: a concrete dataset satisfies the hypotheses
 
 Two depth coordinates on different dimensions — `zc(k)` positive-up, shallow first, with a
@@ -615,5 +784,62 @@ example : ∃ out w, normalize exDs ["zc", "zsed"] (some false) (some false) = s
 /-- outside the hypotheses the sign is *not* what the attribute means: `positive = "DOWN"`
 is read as up (the observation recorded in DESIGN.md section 8) -/
 example : signDown ⟨"z", ["k"], [some 1, some 2], some "DOWN", none, true, ""⟩ = false := by decide
+
+/-! ### Non-vacuity of the sign-only theorems: a dataset reduced to its surface layer
+
+`zc(k)` with **one** level, positive-up, with a bounds variable, a data variable over `(t, k, x)`. -/
+
+def exSurface : Dataset :=
+  { sizes := [("k", 1), ("t", 2), ("x", 2), ("nv", 2)],
+    vars := [
+      { name := "zc", dims := ["k"], data := [some (-1)], positive := some "up",
+        bounds := some "zc_bnds", isCoord := true, extra := "a" },
+      { name := "zc_bnds", dims := ["k", "nv"], data := [some (-2), some 0],
+        positive := none, bounds := none, isCoord := false, extra := "b" },
+      { name := "temp", dims := ["t", "k", "x"], data := [some 1, some 2, some 3, none],
+        positive := none, bounds := none, isCoord := false, extra := "c" } ] }
+
+theorem exSurfaceValid : ValidSign exSurface ["zc"] where
+  oneD := by
+    intro c hc
+    simp only [List.mem_cons, List.not_mem_nil, or_false] at hc
+    subst hc
+    exact ⟨exSurface.vars[0], "k", by decide, rfl⟩
+  indep := by simp
+  names := by decide
+
+/-- the theorems about ≥ 2 levels do not speak about this dataset … -/
+example : ¬ Valid exSurface ["zc"] := by
+  intro h
+  obtain ⟨cv, d, hg⟩ := h.good "zc" (by simp)
+  have : cv = exSurface.vars[0] := Option.some.inj (hg.found.symm.trans (by decide))
+  subst this
+  exact absurd hg.levels (by decide)
+
+/-- … the model computes: positive down — the level and its bounds are negated, the attribute
+set, the data left in place — -/
+example : normalize exSurface ["zc"] (some true) none = some (
+  { sizes := [("k", 1), ("t", 2), ("x", 2), ("nv", 2)],
+    vars := [
+      { name := "zc", dims := ["k"], data := [some 1], positive := some "down",
+        bounds := some "zc_bnds", isCoord := true, extra := "a" },
+      { name := "zc_bnds", dims := ["k", "nv"], data := [some 2, some 0],
+        positive := none, bounds := none, isCoord := false, extra := "b" },
+      { name := "temp", dims := ["t", "k", "x"], data := [some 1, some 2, some 3, none],
+        positive := none, bounds := none, isCoord := false, extra := "c" } ] }, []) := by decide
+
+/-- … and requesting an ordering for it is refused (`d1, d2 = values[0:2]` fails to unpack) -/
+example : normalize exSurface ["zc"] (some true) (some false) = none := by decide
+
+example : ∃ out w, normalize exSurface ["zc"] (some true) none = some (out, w) ∧
+    ∃ w', normalize out ["zc"] (some true) none = some (out, w') := by
+  obtain ⟨out, hn, _⟩ := sign_only_succeeds exSurface ["zc"] (some true) exSurfaceValid
+  refine ⟨out, _, hn, sign_only_idempotent exSurface _ _ out _ exSurfaceValid ?_ hn⟩
+  intro c hc cv hf
+  simp only [List.mem_cons, List.not_mem_nil, or_false] at hc
+  subst hc
+  have : cv = exSurface.vars[0] := Option.some.inj (hf.symm.trans (by decide))
+  subst this
+  decide
 
 end Ems.C13
